@@ -12,7 +12,12 @@ open Num Bmoc
 variable {α : Type} [Num α]
 
 /-- verdict of a classifier on a cell during the descent -/
-inductive Verdict | full | descend | skip
+
+inductive Verdict
+  | full
+  /-- go down; at the target depth the cell is pushed with this flag (`false` = partial) -/
+  | descend (fullAtTarget : Bool)
+  | skip
   deriving DecidableEq, Repr
 
 /-- the generic descent shared by the three coverage queries: `κ depth hash level` classifies a cell; a `descend`
@@ -25,8 +30,8 @@ def coverRec (target : Nat) (κ : Nat → Nat → Nat → Option Verdict) :
     | none => none
     | some .full => some [{ depth, hash, full := true }]
     | some .skip => some []
-    | some .descend =>
-      if depth == target then some [{ depth, hash, full := false }]
+    | some (.descend fl) =>
+      if depth == target then some [{ depth, hash, full := fl }]
       else
         let h := hash <<< 2
         match coverRec target κ fuel (depth + 1) h (level + 1), coverRec target κ fuel (depth + 1) (h ||| 1) (level + 1),
@@ -56,7 +61,7 @@ def coneClassifier (cfg : Cfg) (coneLon coneLat cosConeLat : α) (mm : List (Min
     let s := shs coneLon coneLat cosConeLat c
     match mm[level]? with
     | none => none            -- `shs_minmax[recur_depth]` out of bounds
-    | some m => if Num.lt s m.min then some .full else if Num.le s m.max then some .descend else some .skip
+    | some m => if Num.lt s m.min then some .full else if Num.le s m.max then some (.descend false) else some .skip
 
 /-- `cone_coverage_approx_internal`: the builder content `(depth_max, cells)` -/
 def coneInternal (cfg : Cfg) (depth : Nat) (coneLon coneLat r : α) : Option (List Cell) :=
